@@ -247,6 +247,14 @@ func (fl *Flow) set(st State, lhs ast.Expr, f Fact) {
 	}
 	if k.Path == "" {
 		fl.kill(st, k.Root)
+		// outcomes of branch conditions that mention the variable are about its old value
+		if v, ok := k.Root.(*types.Var); ok {
+			for kk, ff := range st {
+				if kk.Root == nil && strings.HasPrefix(kk.Path, "cond:") && ff.Def != nil && mentionsVar(info, ff.Def, v) {
+					delete(st, kk)
+				}
+			}
+		}
 	} else {
 		// kill this path and extensions
 		for kk := range st {
